@@ -7,14 +7,6 @@ From Helm Require Import Values.Tree Chart.Paths Chart.PathsProofs Chart.Archive
 Import ListNotations.
 Local Open Scope string_scope.
 
-Definition dname (d : chart) : string := m_name (c_meta d).
-
-(* the chart without its dependencies: what wf_chart speaks about *)
-Definition own (c : chart) : chart :=
-  Chart (c_meta c) (c_lock c) (c_raw c) (c_values c) (c_schema c) (c_templates c) (c_files c) [].
-
-Fixpoint depth (c : chart) : nat := S (fold_right Nat.max 0%nat (map depth (c_deps c))).
-
 Lemma depth_dep c d : In d (c_deps c) -> (depth d < depth c)%nat.
 Proof.
   destruct c as [m lk raw vs sch tpl fls deps]. simpl. intros H.
@@ -32,17 +24,6 @@ Proof.
     - apply H. intros d Hin. apply IH. pose proof (depth_dep c d Hin). lia. }
   intros c. now apply (Hn (depth c)).
 Qed.
-
-(* names usable as a subchart directory: loaded, not skipped, not taken for an archive *)
-Definition dep_name_ok (n : string) : Prop :=
-  first_char_in n [underscore; dot] = false /\ String.eqb (path_ext n) ".tgz" = false.
-
-(* strictly increasing in byte order (every element below all later ones) *)
-Fixpoint strict_sorted (l : list string) : Prop :=
-  match l with
-  | a :: t => Forall (fun b => str_leb a b = true /\ a <> b) t /\ strict_sorted t
-  | [] => True
-  end.
 
 Lemma sort_sorted l : strict_sorted l -> sort_strs l = l.
 Proof.
@@ -135,6 +116,7 @@ Section Rec.
 
   Notation SP := (saved_pairs md_enc lock_enc).
   Notation WF := (wf_chart parse_values json_valid sanitize is_semver rest_valid).
+  Notation wf_tree := (wf_tree parse_values json_valid sanitize is_semver rest_valid).
   Notation LFILES := (load_files md_merge lock_dec parse_values untar sanitize is_semver rest_valid maxt maxf).
   Notation lstep := (load_step md_merge lock_dec parse_values).
   Notation lloop := (load_loop md_merge lock_dec parse_values).
@@ -150,17 +132,6 @@ Section Rec.
   Fixpoint canon (c : chart) : chart :=
     Chart (c_meta c) (c_lock c) (map mk2 (tree_pairs c)) (c_values c) (c_schema c)
           (c_templates c) (c_files c) (map canon (c_deps c)).
-
-  Inductive wf_tree : chart -> Prop :=
-  | WfTree c :
-      WF (own c) ->
-      strict_sorted (map dname (c_deps c)) ->
-      Forall (fun d => dep_name_ok (dname d)) (c_deps c) ->
-      Forall wf_tree (c_deps c) ->
-      wf_tree c.
-
-  Inductive nobom_tree : chart -> Prop :=
-  | NbTree c : no_bom (own c) -> Forall nobom_tree (c_deps c) -> nobom_tree c.
 
   Lemma sp_own c : SP (own c) = SP c.
   Proof. reflexivity. Qed.
@@ -360,14 +331,6 @@ Section Rec.
   Qed.
 
   (* ---------- the reloaded tree has the same content ---------- *)
-  Inductive same_tree : chart -> chart -> Prop :=
-  | SameTree a b :
-      c_meta a = c_meta b -> c_lock a = c_lock b -> raw_values a = raw_values b ->
-      c_values a = c_values b -> c_schema a = c_schema b ->
-      c_templates a = c_templates b -> c_files a = c_files b ->
-      Forall2 same_tree (c_deps a) (c_deps b) ->
-      same_tree a b.
-
   Lemma filter_values_nested deps :
     filter is_values_file (map mk2 (dep_files deps)) = [].
   Proof.
@@ -483,5 +446,135 @@ Section Rec.
         unfold tree_entries, L. rewrite !map_map. reflexivity. }
     destruct (load_go maxf maxt (tree_entries c)) as [res rs]. simpl in HL'. subst res. simpl.
     pose proof (tree_pairs_nonempty c). destruct (tree_pairs c); [congruence|reflexivity].
+  Qed.
+
+  (* ---------- Save on a whole tree ---------- *)
+  Notation WTC := (write_tar_contents md_enc lock_enc json_valid).
+
+  Definition good_path (s : string) : Prop := Forall good_comp (split_on slash s).
+
+  Lemma path_join_good a b :
+    good_path a -> good_path b -> path_join a b = a ++ "/" ++ b /\ good_path (a ++ "/" ++ b).
+  Proof.
+    intros Ha Hb. assert (good_path (a ++ "/" ++ b)) as Hab.
+    { unfold good_path. change (a ++ "/" ++ b) with (a ++ String slash b). rewrite split_on_concat.
+      apply Forall_app. split; assumption. }
+    split; auto. pose proof (good_not_empty a Ha). pose proof (good_not_empty b Hb).
+    unfold path_join. destruct a; [congruence|]. destruct b; [congruence|]. now apply path_clean_good.
+  Qed.
+
+  Lemma good_path_cname n : wf_cname n = true -> good_path n.
+  Proof.
+    intros H. destruct (wf_cname_props n H) as (Hg & Hns & _). unfold good_path.
+    rewrite split_on_nosep by assumption. now constructor.
+  Qed.
+
+  Lemma good_path_fname n : wf_fname n = true -> good_path n.
+  Proof. intros H. now destruct (wf_fname_props n H). Qed.
+
+  (* the base directory of a chart written below [pre] *)
+  Definition base_of (pre cn : string) : string := match pre with EmptyString => cn | _ => pre ++ "/" ++ cn end.
+
+  Lemma base_ok pre cn :
+    pre = "" \/ good_path pre -> wf_cname cn = true ->
+    path_join pre cn = base_of pre cn /\ good_path (base_of pre cn).
+  Proof.
+    intros Hp Hc. pose proof (good_path_cname cn Hc) as Hg. destruct pre as [|a pre'].
+    - simpl base_of. split; auto. unfold path_join. pose proof (good_not_empty cn Hg).
+      destruct cn; [congruence|]. now apply path_clean_good.
+    - destruct Hp as [|Hp]; [discriminate|]. unfold base_of. now apply path_join_good.
+  Qed.
+
+  Lemma deps_loop_flat (F : chart -> option (list tentry)) (E : chart -> list tentry) l :
+    (forall d, In d l -> F d = Some (E d)) -> deps_loop F l = Some (flat_map E l).
+  Proof.
+    induction l as [|d l IH]; intros H; cbn [deps_loop flat_map]; auto.
+    rewrite (H d (or_introl eq_refl)). fold (deps_loop F l).
+    rewrite IH by (intros; apply H; now right). reflexivity.
+  Qed.
+
+  Definition entries_at (B : string) (c : chart) : list tentry :=
+    map (fun p => tar_entry (B ++ "/" ++ fst p) (snd p)) (tree_pairs c).
+
+  Lemma map_entries_base B (l : list file) :
+    good_path B -> Forall (fun f => wf_fname (f_name f) = true) l ->
+    map (fun f => tar_entry (path_join B (f_name f)) (f_data f)) l =
+    map (fun p => tar_entry (B ++ "/" ++ fst p) (snd p)) (map (fun f => (f_name f, f_data f)) l).
+  Proof.
+    intros HB HF. rewrite map_map. apply map_ext_in. intros f Hf. cbn [fst snd].
+    rewrite Forall_forall in HF.
+    now destruct (path_join_good B (f_name f) HB (good_path_fname _ (HF f Hf))) as [-> _].
+  Qed.
+
+  Local Opaque path_join.
+  Lemma save_tree : forall c, wf_tree c -> forall pre, pre = "" \/ good_path pre ->
+    WTC pre c = Some (entries_at (base_of pre (dname c)) c).
+  Proof.
+    apply (chart_tree_ind (fun c => wf_tree c -> forall pre, pre = "" \/ good_path pre ->
+              WTC pre c = Some (entries_at (base_of pre (dname c)) c))).
+    intros c IH Hwf pre Hpre. inversion Hwf as [c' Hown Hsorted Hok Hdeps]; subst.
+    pose proof (wf_tree_cname c Hwf) as Hcn.
+    destruct (base_ok pre (dname c) Hpre Hcn) as [HB HBg]. set (B := base_of pre (dname c)) in *.
+    destruct Hown as [Hval Hapi Hname Hvals Hsch Htpl Hfls _].
+    cbn [own c_meta c_lock c_values c_schema c_templates c_files] in *.
+    destruct (validate_inv _ _ _ _ _ Hval) as (_ & _ & Hbase & _).
+    assert (forall fn, wf_fname fn = true -> path_join B fn = B ++ "/" ++ fn) as Hj.
+    { intros fn Hf. now destruct (path_join_good B fn HBg (good_path_fname fn Hf)). }
+    assert (path_join B "charts" = B ++ "/charts" /\ good_path (B ++ "/charts")) as [HBc HBcg].
+    { apply path_join_good; auto. unfold good_path. simpl. repeat constructor; discriminate. }
+    unfold entries_at. rewrite tree_pairs_eq, map_app.
+    destruct c as [m lk raw vs sch tpl fls deps]. cbn [write_tar_contents c_meta c_lock c_raw c_schema c_templates c_files c_deps] in *.
+    unfold dname in HB, B, Hcn. cbn [c_meta] in HB, B, Hcn.
+    rewrite Hbase. cbn [negb]. cbv iota. rewrite HB. fold B.
+    rewrite !Hj by reflexivity.
+    assert ((if String.eqb (m_api m) "v1" then strip_deps m else m) = m) as ->.
+    { destruct Hapi as [->|(-> & Hd & _)]; [reflexivity|]. simpl. now apply strip_deps_id. }
+    assert (match sch with
+            | Some s => if json_valid s then Some [tar_entry (B ++ "/" ++ "values.schema.json") s] else None
+            | None => Some []
+            end = Some (map (fun p => tar_entry (B ++ "/" ++ fst p) (snd p))
+                            match sch with Some s => [("values.schema.json", s)] | None => [] end)) as ->.
+    { destruct sch as [s|]; [|reflexivity]. rewrite Hsch. reflexivity. }
+    rewrite (map_entries_base B tpl HBg).
+    2:{ apply Forall_forall. intros f Hf. rewrite forallb_forall in Htpl. now destruct (wf_template_props f (Htpl f Hf)). }
+    rewrite (map_entries_base B fls HBg).
+    2:{ apply Forall_forall. intros f Hf. rewrite forallb_forall in Hfls. now destruct (wf_file_props f (Hfls f Hf)). }
+    change (B ++ "/" ++ "charts") with (B ++ "/charts").
+    rewrite (deps_loop_flat _ (fun d => entries_at ((B ++ "/charts") ++ "/" ++ dname d) d) deps).
+    2:{ intros d Hd. rewrite Forall_forall in Hdeps.
+        rewrite (IH d Hd (Hdeps d Hd) (B ++ "/charts") (or_intror HBcg)).
+        unfold base_of. destruct (B ++ "/charts") eqn:E; [|reflexivity].
+        destruct B; discriminate. }
+    f_equal. unfold saved_pairs, lock_seg, schema_seg, raw_values.
+    cbn [c_meta c_lock c_raw c_schema c_templates c_files]. rewrite !map_app, !map_map.
+    cbn [app map fst snd]. f_equal. rewrite <- !app_assoc.
+    apply (f_equal2 (@app tentry)); [destruct (String.eqb (m_api m) "v2"); [destruct lk|]; reflexivity|].
+    apply (f_equal2 (@app tentry)); [reflexivity|].
+    apply (f_equal2 (@app tentry)); [reflexivity|].
+    apply (f_equal2 (@app tentry)); [reflexivity|].
+    apply (f_equal2 (@app tentry)); [reflexivity|].
+    unfold dep_files, entries_at. clear. induction deps as [|d deps IHd]; cbn [flat_map map]; auto.
+    rewrite map_app, IHd. f_equal. rewrite map_map. apply map_ext. intros p. unfold nest. cbn [fst snd].
+    f_equal. now rewrite !append_assoc.
+  Qed.
+  Local Transparent path_join.
+
+  (* C15_roundtrip for a chart with its whole dependency tree *)
+  Theorem roundtrip_tree c :
+    wf_tree c -> nobom_tree c ->
+    exists es, save md_enc lock_enc json_valid sanitize is_semver rest_valid c = Some es /\
+      (fits maxt maxf es -> forall fuel, (depth c <= fuel)%nat -> exists c',
+         load_archive md_merge lock_dec parse_values untar sanitize is_semver rest_valid maxt maxf fuel
+                      (mkTS false es false) = inr c' /\
+         same_tree c c').
+  Proof.
+    intros Hwf Hnb. exists (tree_entries c). split.
+    - unfold save. inversion Hwf as [c' Hown _ _ _]; subst. destruct Hown as [Hval _ _ _ _ _ _ _].
+      cbn [own c_meta] in Hval. rewrite Hval.
+      assert (set_meta c (c_meta c) = c) as -> by (destruct c; reflexivity).
+      rewrite (save_tree c Hwf "" (or_introl eq_refl)). reflexivity.
+    - intros Hfit fuel Hfuel. exists (canon c). split.
+      + unfold load_archive. rewrite (archive_of_tree c Hwf Hnb Hfit). now apply load_tree.
+      + now apply (same_tree_canon (depth c)).
   Qed.
 End Rec.
